@@ -148,6 +148,7 @@ pub fn obs_of(f: &FactSet, with_defaults: bool) -> Obs {
         orpha: mk(Kind::Orpha),
         categories,
         modifier,
+        sims: vec![],
         anomalies: vec![],
         probes: Default::default(),
     }
